@@ -30,17 +30,19 @@ RULE = (
     "valid generated histories with amounts 1e-11..1e9, prices 1e-8..1e7, tiny fractions of huge lots, thirds/sevenths, "
     "with and without each optional exchange-supplied fiat column (consistent or deliberately different), fees on both "
     "sides, x methods (fractioning differs); plus canary histories (amounts of the form 2^a5^b, prices 0.07/0.1/1.3...) "
-    "that must match the rational result exactly. Non-trivial = a run with >= 1 disposal fraction whose lot and event "
+    "that must match the rational result exactly; CLI slice: real rp2_us runs on spreadsheets with crypto fees on acquisitions "
+    "and exchange-supplied fiat columns, Proceeds / Cost Basis / Gain of the Gain / Loss Detail table and of tax_report_us.ods "
+    "recomputed from the spreadsheet rows. Non-trivial = a run with >= 1 disposal fraction whose lot and event "
     "are both only partially used; distinct = hash of (history, method)"
 )
 ASSUMPTIONS = [
     "fiat values default to amount x spot price; exchange-supplied fiat_in_no_fee / fiat_in_with_fee / fiat_fee / fiat_out_no_fee replace them when given",
     "the float monitor covers rp2.* modules except rp2.plugin.report.* and rp2.ods_parser (which must handle spreadsheet doubles)",
-    "reports carry doubles; their agreement with the computed values is C13's subject",
+    "report cells are doubles: the CLI slice compares them with the rational values at 1e-12 relative",
 ]
 SETTINGS: Dict[str, Dict[str, Any]] = {
-    "quick": {"cases": 2400, "budget_s": 45, "minimums": {"fractions": 15000, "nontrivial": 500, "canary_fractions": 1500, "monitored_calls": 100000}},
-    "thorough": {"cases": 100000, "budget_s": 300, "minimums": {"fractions": 600000, "nontrivial": 20000, "canary_fractions": 50000, "monitored_calls": 5000000}},
+    "quick": {"cases": 2400, "cli_cases": 32, "budget_s": 60, "minimums": {"fractions": 15000, "nontrivial": 500, "canary_fractions": 1500, "monitored_calls": 100000, "cli_fractions": 150, "cli_tax_report_rows": 150}},
+    "thorough": {"cases": 100000, "cli_cases": 480, "budget_s": 360, "minimums": {"fractions": 600000, "nontrivial": 20000, "canary_fractions": 50000, "monitored_calls": 5000000, "cli_fractions": 2500, "cli_tax_report_rows": 2500}},
 }
 
 PROFILES = [
@@ -134,7 +136,7 @@ def run_shard(ctx: Any) -> None:
         share = ctx.share(settings["cases"])
         index = ctx.shard
         done = 0
-        while done < share and not ctx.expired():
+        while done < share and (ctx.budget_s - ctx.time_left()) < ctx.budget_s * 0.75:
             rng = ctx.rng("case", index)
             if index % 4 == 3:
                 hist = canary(rng)
@@ -157,11 +159,22 @@ def run_shard(ctx: Any) -> None:
             ctx.tag("tag_monitored_modules", module.__name__)
     finally:
         monitor.stop()
+    # second observation point: Proceeds / Cost Basis / Gain columns of the reports of real CLI runs (parser included:
+    # crypto fees on acquisitions together with exchange-supplied fiat values only exist on that path)
+    from rpv.checks import cli_slices
+
+    cli_slices.c04(ctx, SETTINGS[ctx.tier]["cli_cases"])
 
 
 def replay(ctx: Any, case: Dict[str, Any]) -> None:
     from rpv.monitors.inproc import FloatMonitor
     import sys
+
+    if case.get("cli"):
+        from rpv.checks import cli_slices
+
+        cli_slices.c04_replay(ctx, case)
+        return
 
     ip = get_ip(ctx)
     modules = [m for name, m in sorted(sys.modules.items()) if (name == "rp2" or name.startswith("rp2.")) and not name.startswith("rp2.plugin.report") and name != "rp2.ods_parser" and m is not None]
@@ -185,6 +198,9 @@ def coverage(merged: Dict[str, Any], tier: str) -> Dict[str, Any]:
             "lots_reassembled": c.get("reassembled_lots", 0),
             "calls_seen_by_float_monitor": c.get("monitored_calls", 0),
             "code_objects_monitored": c.get("monitored_code_objects", 0),
+            "cli_detail_fractions_recomputed": c.get("cli_fractions", 0),
+            "cli_tax_report_us_rows_recomputed": c.get("cli_tax_report_rows", 0),
+            "cli_inputs_with_crypto_fee_and_supplied_fiat_on_a_lot": c.get("cli_lots_with_crypto_fee_and_supplied_fiat", 0),
         },
         "largest_relative_error_observed": merged["maxima"].get("max_rel_err"),
     }
